@@ -242,6 +242,7 @@ class LockStep(Model):
     def invariant(self):
         v = []
         want = self.ref.canon()
+        answers = {}
         for fl in self.flavours():
             got = store_canon(fl)
             if got != want:
@@ -264,14 +265,17 @@ class LockStep(Model):
                 for nm in ('nm', 'm'):
                     qs.append(('check_node_unique', (c, nm), lambda c=c, nm=nm: g.check_node_unique(label=c, name=nm), self.ref.q_unique(G, c, nm)))
             qs.append(('graph_exists', (), lambda: g.graph_exists(), self.ref.q_graph_exists(G)))
-            if self.ref.ids(H) and self.ref.ids(G):
+            if self.ref.ids(G):
                 other = type(g)(graph_id=H, importer=g.importer)
-                qs.append(('find_matching_nodes', (), lambda: sorted(g.find_matching_nodes(other_graph=other)), self.ref.q_matching(G, H)))
+                # (matching against a graph without nodes: the interface does not say - the backends must still agree)
+                qs.append(('find_matching_nodes', (), lambda: sorted(g.find_matching_nodes(other_graph=other)),
+                           self.ref.q_matching(G, H) if self.ref.ids(H) else ('either',)))
             for name, args, fn, exp in qs:
                 try:
                     got_q = ('ok', fn())
                 except Exception as e:
                     got_q = ('raise', type(e).__name__)
+                answers.setdefault((name, args), {})[fl] = got_q[0] if got_q[0] == 'raise' else got_q
                 if exp[0] == 'either':
                     continue
                 if exp[0] == 'raise':
@@ -279,6 +283,10 @@ class LockStep(Model):
                         v.append((f'query/{name}/{fl}/no-raise', f'[{fl}] {name}{args} returned {got_q[1]!r} but must raise'))
                 elif got_q != exp:
                     v.append((f'query/{name}/{fl}', f'[{fl}] {name}{args} gave {got_q!r}, reference model says {exp!r}'))
+        # whatever a query does where the interface is silent, both backends do the same
+        for (name, args), per in answers.items():
+            if len(per) == 2 and per['shared'] != per['disjoint']:
+                v.append((f'backends-disagree/query/{name}', f'{name}{args}: shared {per["shared"]!r} vs per-graph {per["disjoint"]!r}'))
         # identity invariants, on the raw stores
         for fl in self.flavours():
             graphs = [world.shared_store().graphs] if fl == 'shared' else list(world.disjoint_store().graphs.values())
